@@ -8,6 +8,7 @@ pub mod known;
 pub mod oracle;
 pub mod props;
 pub mod report;
+pub mod script;
 
 pub fn config_name() -> &'static str {
     match (cfg!(feature = "explanations"), cfg!(feature = "checks")) {
